@@ -14,14 +14,16 @@ fn patterns(seed: u64) -> Vec<(&'static str, Vec<u8>)> {
     vec![("zeros", vec![0; 64]), ("ones", vec![0xff; 64]), ("counting", count.clone()), ("counting-complement", count.iter().map(|b| !b).collect()), ("filler", filler_bytes(seed, 0xC12, 64))]
 }
 /// data-flow oracle for one generated phrase
-fn check_phrase(ctx: &Ctx, sig: &str, out: &str, len: usize, reqs: &[Req], replay: serde_json::Value) -> bool {
+fn check_phrase(ctx: &Ctx, sig: &str, out: &str, len: usize, reqs: &[Req], replay: serde_json::Value) -> bool { check_phrase_p(ctx, P, sig, out, len, reqs, replay) }
+fn check_phrase_p(ctx: &Ctx, p: &str, sig: &str, out: &str, len: usize, reqs: &[Req], replay: serde_json::Value) -> bool {
+    let pid = p;
     let line = out.trim_end_matches('\n'); let toks: Vec<&str> = line.split(' ').collect();
     let handed = reqs.iter().filter(|r| r.ok).count();
     match bip39::tokens_to_entropy(&toks) {
-        Err(e) => { ctx.violation(format!("{P}:new:{sig}:invalid-phrase"), format!("printed {:?}, which is not a valid BIP-39 phrase: {e:?}", trunc(line, 200)), replay); false }
+        Err(e) => { ctx.violation(format!("{pid}:new:{sig}:invalid-phrase"), format!("printed {:?}, which is not a valid BIP-39 phrase: {e:?}", trunc(line, 200)), replay); false }
         Ok(ent) => {
-            if toks.len() != len || out != format!("{line}\n") { ctx.violation(format!("{P}:new:{sig}:wrong-length"), format!("{} words printed for requested length {len}", toks.len()), replay); false }
-            else if !carried_by(&ent, reqs) { ctx.violation(format!("{P}:new:{sig}:entropy-not-from-source"), format!("entropy {} of the printed phrase is not made of answers of the entropy source ({} requests answered)", eth::hex(&ent), handed), replay); false }
+            if toks.len() != len || out != format!("{line}\n") { ctx.violation(format!("{pid}:new:{sig}:wrong-length"), format!("{} words printed for requested length {len}", toks.len()), replay); false }
+            else if !carried_by(&ent, reqs) { ctx.violation(format!("{pid}:new:{sig}:entropy-not-from-source"), format!("entropy {} of the printed phrase is not made of answers of the entropy source ({} requests answered)", eth::hex(&ent), handed), replay); false }
             else { true }
         }
     }
@@ -108,5 +110,35 @@ pub fn run(ctx: &Ctx) {
         ctx.eval(format!("{shape}:{},request-lengths={:?}", if r.ok() { "phrase" } else { "refused" }, { let mut l: Vec<usize> = reqs.iter().map(|r| r.len).collect(); l.sort(); l.dedup(); l }));
         if !r.ok() { ctx.violation(format!("{P}:new:{shape}:refused"), r.describe(), replay); return; }
         check_phrase(ctx, &shape, &r.out(), len, &reqs, replay);
+    });
+    kth_candidate(ctx, P);
+}
+
+/// shared by C12 (data flow) and C18 (length and prefix of what is printed)
+pub fn kth_candidate(ctx: &Ctx, p: &str) {
+    let pid = p; let curve = Curve::new(); let lens5 = [12usize, 15, 18, 21, 24];
+    // the k-th candidate of a single-threaded search, for EVERY k up to a bound and every length: entropy streams and
+    // one-digit prefixes are chosen with the reference so that, when candidates are carved from the stream one after
+    // the other, the first candidate whose account matches is exactly the k-th (buffers refilled or carved between
+    // candidates: the candidate that straddles a block boundary is reached whatever the block size up to k * bytes)
+    let kmax = if ctx.quick() { 16usize } else { 40 };
+    let plans: std::sync::Mutex<Vec<(usize, usize, Vec<u8>, u8)>> = std::sync::Mutex::new(Vec::new()); // (length, k, stream, digit)
+    std::thread::scope(|sc| { for len in lens5 { let plans = &plans; let seed = ctx.seed; sc.spawn(move || { let curve = Curve::new(); let e = len * 4 / 3; let mut covered = vec![false; kmax + 1]; let mut s = 0u64;
+        while covered[1..].iter().any(|c| !c) && s < 64 { let stream = filler_bytes(seed, 0xC12B + s * 16 + len as u64, e * (kmax + 24)); s += 1;
+            let nib: Vec<u8> = (0..kmax + 24).map(|j| { let ph = bip39::entropy_to_phrase(&stream[j * e..(j + 1) * e]); eth::address_of_secret(&curve, &key_of(&curve, &ph, "", &default_path(0)))[0] >> 4 }).collect();
+            for d in 0..16u8 { if let Some(j) = nib.iter().position(|n| *n == d) { let k = j + 1; if k <= kmax && !covered[k] { covered[k] = true; plans.lock().unwrap().push((len, k, stream.clone(), d)); } } } } }); } });
+    let mut plans = plans.into_inner().unwrap(); plans.sort_by_key(|p| (p.0, p.1));
+    ctx.sweep("vanity-kth-candidate", &format!("single-threaded vanity search (-j 0) for every supported length x every k in 1..={kmax}: a stream and a one-digit prefix for which the k-th candidate carved from the stream is the first match; data-flow oracle on the printed phrase"), plans.len() as u64, |i| {
+        let (len, k, stream, d) = &plans[i as usize]; let e = len * 4 / 3;
+        let cmd = Cmd::new(&["new", "-n", &len.to_string(), "--vanity-prefix", &format!("0x{d:x}"), "-j", "0"]).timeout(300);
+        let (r, reqs, full) = run_shimmed(&cmd, Build::Release, &Mode::Cycle { pattern: stream.clone(), fail_at: None, once: false }, "vanity-kth-candidate", i);
+        let shape = format!("vanity-kth-candidate,len={len}"); let replay = full.replay("vanity-kth-candidate", i, Build::Release);
+        ctx.sample("vanity-kth-candidate", || serde_json::json!({"command": trunc(&full.shown(), 200), "k": k, "requests_seen": reqs.len()}));
+        if r.crashed() { ctx.eval(format!("{shape}:{}", r.crash_kind())); ctx.panic_violation(format!("{pid}:new:{shape}:{}", r.crash_kind()), format!("k = {k}: {}", r.describe()), replay); return; }
+        if !r.ok() { ctx.eval(format!("{shape}:refused")); ctx.violation(format!("{pid}:new:{shape}:refused"), format!("k = {k}: {}", r.describe()), replay); return; }
+        let natural = r.line() == bip39::entropy_to_phrase(&stream[(k - 1) * e..k * e]);
+        ctx.eval(format!("{shape},k={k}:{}", if natural { "the k-th candidate" } else { "another candidate" }));
+        if check_phrase_p(ctx, pid, &shape, &r.out(), *len, &reqs, replay.clone()) { // and it really has the prefix
+            if eth::address_of_secret(&curve, &key_of(&curve, &r.line(), "", &default_path(0)))[0] >> 4 != *d { ctx.violation(format!("{pid}:new:{shape}:prefix-not-matched"), format!("k = {k}: the printed phrase's account does not start with {d:x}"), replay); } }
     });
 }
